@@ -197,7 +197,7 @@ def run(ctx: Ctx):
         if direct or via:
             consumers.append((fn, direct, via))
     deciding = {"TaskScenario._asapReadyForScheduling", "TaskScenario._alapReadyForScheduling", "TaskScenario.schedule",
-                "TaskScenario._getSuccessors", "TaskScenario._gapToSuccessor"}
+                "TaskScenario._getSuccessors", "TaskScenario._gapToSuccessor", "Project._propagateContainerEndDates"}
     for fn, direct, via in consumers:
         if fn.module.rel.startswith("scriptplan/parser/"):
             continue          # construction of the lists, not consumption
@@ -316,7 +316,8 @@ def run(ctx: Ctx):
            "same edge sets as the backward readiness test" if ok else "backward bound and backward readiness enumerate different edge sets",
            key="R04.4|schedule|bwd enumeration")
     # successors are found by identity of the predecessor
-    ok = any(isinstance(n, ast.Compare) and isinstance(n.ops[0], ast.Is) and norm(n.comparators[0]) == "self.property" for n in own_nodes(succ))
+    from .common import edge_selects_me
+    ok = any(edge_selects_me(ctx, succ, n) for n in own_nodes(succ))
     ctx.ob("R04.4", f"{succ.qual}: successor = task with an edge whose predecessor is this task", succ, ok,
            "edge matched by identity with self.property" if ok else "successor enumeration does not match edges by identity",
            key="R04.4|_getSuccessors|identity")
@@ -385,6 +386,84 @@ def run(ctx: Ctx):
     if not n_back:
         raise AnchorMissing("_asapReadyForScheduling: no back edge of the readiness loop found")
     ctx.floor("R04.7", 1)
+    # ---------------------------------------------------------------- R04.9 gap units
+    # gaplength (working time) is counted in slots of the project's resolution; gapduration / maxgapduration (elapsed time)
+    # are converted with calendar units (1d = 24h, 1w = 168h)
+    skip = [w for w in own_nodes(sched) if isinstance(w, ast.While) and "gap_slots" in norm(w.test)]
+    if not skip:
+        raise AnchorMissing("TaskScenario.schedule: working-time gap loop (gap_slots) not found")
+    for w in skip:
+        bound = [n for n in own_nodes(sched) if isinstance(n, ast.Assign) and norm(n.targets[0]) == "gap_slots"]
+        d = set()
+        for b in bound:
+            d |= full(fd.deps_of(b.value))
+        ok = "pattr:scheduleGranularity" in d and "pattr:gaplength" in d
+        ctx.ob("R04.9", f"{sched.qual}: gap_slots := {[norm(b.value)[:50] for b in bound]}", (sched, w), ok,
+               "the number of working slots to skip depends on the gap and on the slot length" if ok else
+               "the working-time gap is converted to slots without the project's slot length (one slot = one hour assumed): at any other "
+               "timing resolution the successor starts too early or too late",
+               key="R04.9|TaskScenario.schedule|gaplength slots")
+    pd = repo.func("TaskScenario._parse_duration")
+    tables = [n for n in own_nodes(pd) if isinstance(n, ast.Dict) and all(isinstance(k, ast.Constant) for k in n.keys)]
+    tabs = [{k.value: (v.value if isinstance(v, ast.Constant) else None) for k, v in zip(t.keys, t.values)} for t in tables]
+    cal = [t for t in tabs if t.get("d") == 24 and t.get("w") == 168 and t.get("h") == 1]
+    wrk = [t for t in tabs if t.get("d") == 8 and t.get("w") == 40 and t.get("h") == 1]
+    has_param = "calendar" in pd.params
+    ctx.ob("R04.9", f"{pd.qual}: unit tables {tabs}", pd, bool(cal) and bool(wrk) and has_param,
+           "elapsed-time units (24h days) and working-time units (8h days) are both available" if cal and wrk and has_param else
+           "_parse_duration has no elapsed-time unit table: a gapduration in days / weeks is converted at working-time rates",
+           key="R04.9|_parse_duration|tables")
+    n_calls = 0
+    for fn in sorted(repo.all_funcs(), key=lambda f: f.key):
+        if fn.cls is None or fn.cls.name != "TaskScenario":
+            continue
+        fdd = ctx.dep.of(fn)
+        for c in own_nodes(fn):
+            if not (isinstance(c, ast.Call) and norm(c.func) == "self._parse_duration" and c.args):
+                continue
+            if isinstance(getattr(c, "_parent", None), ast.Expr):
+                continue                      # result discarded
+            a = full(fdd.deps_of(c.args[0]))
+            elapsed = bool(a & {"pattr:gapduration", "pattr:maxgapduration"})
+            working = "pattr:gaplength" in a
+            if not (elapsed or working) or (elapsed and working):
+                continue
+            n_calls += 1
+            kw = next((k.value for k in c.keywords if k.arg == "calendar"), None)
+            is_cal = isinstance(kw, ast.Constant) and kw.value is True
+            ok = is_cal if elapsed else not is_cal
+            ctx.ob("R04.9", f"{fn.qual}: {norm(c)[:60]} ({'elapsed' if elapsed else 'working'} time)", (fn, c), ok,
+                   "converted with the unit table of its kind" if ok else
+                   ("a gapduration is converted with working-time units: `gapduration 1d` keeps the successor away for 8 hours, not 24"
+                    if elapsed else "a gaplength is converted with elapsed-time units"),
+                   key=key_of("R04.9", fn, c, "units"))
+    if n_calls < 4:
+        raise AnchorMissing(f"gap conversions found: {n_calls}")
+    ctx.floor("R04.9", 6)
+    from .c06 import milestone_bound_rule
+    milestone_bound_rule(ctx, "R04.10")
+    ctx.floor("R04.10", 2)
+    # ---------------------------------------------------------------- R04.11 a dependency on a container binds its children (backward mode)
+    from .common import edge_selects_me
+    for q in ("TaskScenario._getSuccessors", "TaskScenario._gapToSuccessor"):
+        f = repo.func(q)
+        sel_ = [n for n in own_nodes(f) if edge_selects_me(ctx, f, n)]
+        aware = [n for n in sel_ if isinstance(n, ast.Call)]
+        ok = bool(sel_) and len(aware) == len(sel_)
+        ctx.ob("R04.11", f"{q}: edge selection {[norm(n) for n in sel_]}", f, ok,
+               "an edge on the task or on any enclosing container selects the successor" if ok else
+               "successors are recognised only by an edge that names the task itself: with `s depends box` the children of box have no "
+               "successor in backward mode, are anchored at the project end and end after s starts",
+               key=f"R04.11|{q}|container edges")
+    pce = repo.func("Project._propagateContainerEndDates")
+    exp = [c for c in own_nodes(pce) if isinstance(c, ast.Call) and isinstance(c.func, ast.Attribute) and c.func.attr == "allLeaves"
+           and norm(c.func.value) == "pred"]
+    ctx.ob("R04.11", f"{pce.qual}: a container predecessor marks every leaf below it as having a successor", pce, bool(exp),
+           "pred.allLeaves() feeds the successor set" if exp else
+           "a container that something depends on is recorded under its own id only: its leaves count as terminal, are pinned to the "
+           "enclosing container's end and end after their successor starts",
+           key="R04.11|_propagateContainerEndDates|container predecessor")
+    ctx.floor("R04.11", 3)
     # ---------------------------------------------------------------- R04.6 task identity
     from .common import local_id_identity_rule
     local_id_identity_rule(ctx, "R04.6", ("parser/tjp_parser.py", "core/project.py", "core/task_scenario.py", "core/task.py"),
